@@ -383,7 +383,16 @@ def callback_list_discipline(ctx, prop):
             continue
         n += 1
         ctx.touch(f)
-        ok = (f.name == '__init__' and f.cls is not None and f.cls.is_subclass_of('Event')) or f.qualname == 'Environment.step'
+        def _is_ctor_or_step(q):
+            if q == 'Environment.step':
+                return True
+            cn, _, mn = q.partition('.')
+            try:
+                return mn == '__init__' and ctx.repo.find_class(cn).is_subclass_of('Event')
+            except Exception:
+                return False
+        # a private initialiser shared by constructors acts for the constructors that call it
+        ok = all(_is_ctor_or_step(q) for q in root_callers(ctx.repo, f, stop=('Environment.step',)))
         ctx.ob(rule, ok)
         if not ok:
             ctx.violation(rule, '%s::%s' % (f.module.relpath, f.qualname), 'store to .callbacks (%s)' % kind,
@@ -443,7 +452,7 @@ def exception_cloning(ctx, prop):
         raise AnalysisError('anchor vanished: onl.sim.exceptions')
     n = 0
     for c in mod.classes.values():
-        init = c.methods.get('__init__')
+        init = c.own('__init__')
         n += 1
         if init is None:
             ctx.ob(rule, True)
@@ -594,7 +603,7 @@ def active_process_discipline(ctx, prop):
         'Environment.__init__': 'no process is active initially', 'Process._resume': 'active while the generator runs'}, 3,
         'the active-process mark is maintained by Process._resume only')
     c = ctx.repo.find_class('Process')
-    f = c.methods.get('_resume')
+    f = c.own('_resume')
     if f is None:
         raise AnalysisError('anchor vanished: Process._resume')
     paths = ctx.paths(c, f, Options(), primary=False)    # a slice of _resume: not a target of the self-validation
